@@ -334,7 +334,7 @@ func (e *Engine) verifyFunc1(c *Contract) (res *FuncResult) {
 			if c.PostsOnly {
 				var keep []*Obligation
 				for _, o := range vc.obligs {
-					if o.Cover || strings.HasPrefix(o.Kind, "post:") || strings.HasPrefix(o.Kind, "loop") || strings.HasPrefix(o.Kind, "cases") || strings.Contains(o.Kind, "safety:panic") {
+					if o.Cover || strings.HasPrefix(o.Kind, "post:") || strings.HasPrefix(o.Kind, "loop") || strings.HasPrefix(o.Kind, "cases") || strings.Contains(o.Kind, "safety:panic") || strings.HasPrefix(o.Kind, "preserves") || strings.HasPrefix(o.Kind, "assert_") {
 						keep = append(keep, o)
 					}
 				}
@@ -455,6 +455,20 @@ func (e *Engine) genFunc(c *Contract, fn *ssa.Function, mode Mode, known map[str
 			if !hit {
 				vc.oblige(fmt.Sprintf("assert_at:%d:site", k+1), "true", "false", fmt.Sprintf("no statement of the function contains the text %q any more", sa.Text))
 			}
+		}
+	}
+	if len(c.Preserves) > 0 {
+		hit := false
+		for name := range vc.heapSort {
+			if matchPreserve(name, c.Preserves) {
+				hit = true
+			}
+		}
+		vc.oblige("preserves:checked", "true", "true", fmt.Sprintf("no instruction or callee contract writes %v (maps known: %v)", c.Preserves, hit))
+	}
+	for k, ca := range c.CallAsserts {
+		if fr.callHits[k] == 0 {
+			vc.oblige(fmt.Sprintf("assert_call:%d:site", k+1), "true", "false", fmt.Sprintf("the function no longer calls %s on any explored path", ca.Text))
 		}
 	}
 	if out == nil {
